@@ -812,10 +812,11 @@ def main(argv):
     if not hs_viol and (len([u for u in unusable if not u.startswith("rnd-") and "~" not in u and u not in expected]) > 6 + nbase // 50
                         or len(unusable) > len(lib) * 0.5):
         raise K.HarnessError(f"too many unusable descriptions: {unusable}")
-    usable = [d for d in lib if d["id"] not in unusable and not d.get("twin_of") and not d.get("solo_only")
+    # (descriptions whose own renderings fail in the same way alone may still take part as aggressors)
+    usable = [d for d in lib if (d["id"] not in unusable or d.get("aggressor_ok")) and not d.get("twin_of") and not d.get("solo_only")
               and not any(h["desc"]["id"] == d["id"] for h in hs_viol)]
     if len(usable) < 4:
-        usable = [d for d in lib if d["id"] not in unusable and not d.get("twin_of") and not d.get("solo_only")]
+        usable = [d for d in lib if (d["id"] not in unusable or d.get("aggressor_ok")) and not d.get("twin_of") and not d.get("solo_only")]
     lib_by_id = {d["id"]: d for d in usable}
     fam_of = {d["id"]: d["family"] for d in usable}
     census = {}
